@@ -1,7 +1,7 @@
 /-
   C07 — stream framing is independent of how the transport chunks bytes.
 
-  `recv c0 max` (model of `ttlv.Stream.Recv`; `c0` = capacity of the buffer a call starts with, any
+  `recvC c0 max` (model of `ttlv.Stream.Recv`; `c0` = capacity of the buffer a call starts with, any
   value; `max` = the configured limit, `0` = none) runs against an adversarial transport that decides
   what every `Read` returns.
 
@@ -28,11 +28,11 @@ open Kmip
 /-- 1a. Every progressive, error-free schedule (any chunk sizes ≥ 1) — the receiver returns exactly
     the first frame `m`, leaves exactly `rest` on the wire (never a byte of the next message), and
     the unread part of the schedule is still progressive and error-free. -/
-theorem recv_exact (c0 max : Nat) (m rest : Bytes) (sched : List ReadEv)
+theorem recvC_exact (c0 max : Nat) (m rest : Bytes) (sched : List ReadEv)
     (hm : Framed m) (hmax : max = 0 ∨ m.length ≤ max) (hp : Progressive sched)
     (he : ∀ ev ∈ sched, ev.withErr = false) :
-    ∃ sched', (recv c0 max { wire := m ++ rest, sched := sched }).res = .msg m ∧
-      (recv c0 max { wire := m ++ rest, sched := sched }).t = { wire := rest, sched := sched' } ∧
+    ∃ sched', (recvC c0 max { wire := m ++ rest, sched := sched }).res = .msg m ∧
+      (recvC c0 max { wire := m ++ rest, sched := sched }).t = { wire := rest, sched := sched' } ∧
       Progressive sched' ∧ (∀ ev ∈ sched', ev.withErr = false) := by
   obtain ⟨pre, s', c', hs, hr⟩ := recv_exact_gen c0 max m rest sched hm hmax hp
     (ErrOnlyAtEnd_of_errFree _ _ _ he)
@@ -42,23 +42,23 @@ theorem recv_exact (c0 max : Nat) (m rest : Bytes) (sched : List ReadEv)
     `Read`), provided every flagged read is one that completes the frame (`ErrOnlyAtEnd`, the byte
     accounting of the schedule against a frame of `m.length` bytes): data is accounted for before
     the error, the result is still `.msg m`. -/
-theorem recv_exact_data_with_err (c0 max : Nat) (m rest : Bytes) (sched : List ReadEv)
+theorem recvC_exact_data_with_err (c0 max : Nat) (m rest : Bytes) (sched : List ReadEv)
     (hm : Framed m) (hmax : max = 0 ∨ m.length ≤ max) (hp : Progressive sched)
     (he : ErrOnlyAtEnd m.length 0 sched) :
-    ∃ sched', (recv c0 max { wire := m ++ rest, sched := sched }).res = .msg m ∧
-      (recv c0 max { wire := m ++ rest, sched := sched }).t = { wire := rest, sched := sched' } ∧
+    ∃ sched', (recvC c0 max { wire := m ++ rest, sched := sched }).res = .msg m ∧
+      (recvC c0 max { wire := m ++ rest, sched := sched }).t = { wire := rest, sched := sched' } ∧
       Progressive sched' := by
   obtain ⟨pre, s', c', hs, hr⟩ := recv_exact_gen c0 max m rest sched hm hmax hp he
   exact ⟨s', by rw [hr], by rw [hr], Progressive_of_suffix hs hp⟩
 
 /-- 1c. The typical instance of 1b: the header arrives in one read, the whole body in a second read
     that is flagged with an error (`e` arbitrary). -/
-theorem recv_exact_body_with_eof (c0 max : Nat) (m rest : Bytes) (k1 k2 : Nat) (e : Bool)
+theorem recvC_exact_body_with_eof (c0 max : Nat) (m rest : Bytes) (k1 k2 : Nat) (e : Bool)
     (post : List ReadEv) (hm : Framed m) (hmax : max = 0 ∨ m.length ≤ max)
     (hk1 : 8 ≤ k1) (hk2 : m.length - 8 ≤ k2)
     (hp : Progressive (⟨k1, false⟩ :: ⟨k2, e⟩ :: post)) :
-    (recv c0 max { wire := m ++ rest, sched := ⟨k1, false⟩ :: ⟨k2, e⟩ :: post }).res = .msg m ∧
-    (recv c0 max { wire := m ++ rest, sched := ⟨k1, false⟩ :: ⟨k2, e⟩ :: post }).t.wire = rest := by
+    (recvC c0 max { wire := m ++ rest, sched := ⟨k1, false⟩ :: ⟨k2, e⟩ :: post }).res = .msg m ∧
+    (recvC c0 max { wire := m ++ rest, sched := ⟨k1, false⟩ :: ⟨k2, e⟩ :: post }).t.wire = rest := by
   have h8 := hm.1
   have h1 : 0 + min k1 ((if 0 < 8 then 8 else m.length) - 0) = 8 := by
     rw [if_pos (by decide)]; omega
@@ -76,11 +76,11 @@ theorem recv_exact_body_with_eof (c0 max : Nat) (m rest : Bytes) (k1 k2 : Nat) (
   rw [hr]; exact ⟨rfl, rfl⟩
 
 /-- 1d. Exhausted schedule (every read delivers all that is requested) — an instance of 1a. -/
-theorem recv_exact_unscheduled (c0 max : Nat) (m rest : Bytes)
+theorem recvC_exact_unscheduled (c0 max : Nat) (m rest : Bytes)
     (hm : Framed m) (hmax : max = 0 ∨ m.length ≤ max) :
-    (recv c0 max { wire := m ++ rest, sched := [] }).res = .msg m ∧
-    (recv c0 max { wire := m ++ rest, sched := [] }).t.wire = rest := by
-  obtain ⟨s', h1, h2, _⟩ := recv_exact c0 max m rest [] hm hmax (fun _ h => nomatch h)
+    (recvC c0 max { wire := m ++ rest, sched := [] }).res = .msg m ∧
+    (recvC c0 max { wire := m ++ rest, sched := [] }).t.wire = rest := by
+  obtain ⟨s', h1, h2, _⟩ := recvC_exact c0 max m rest [] hm hmax (fun _ h => nomatch h)
     (fun _ h => nomatch h)
   exact ⟨h1, by rw [h2]⟩
 
@@ -105,25 +105,25 @@ theorem recvAll_exact (c0 max : Nat) (ms : List Bytes) (rest : Bytes) (sched : L
 
 /-- 3b. `.fuel` is an artefact of the model's bounded loop; it is never returned: `Recv` terminates
     with a message or an error on every transport. -/
-theorem recv_never_fuel (c0 max : Nat) (t : Transport) : (recv c0 max t).res ≠ .fuel :=
+theorem recvC_never_fuel (c0 max : Nat) (t : Transport) : (recvC c0 max t).res ≠ .fuel :=
   recvLoop_ne_fuel max _ t [] 8 c0 (by omega)
 
 /-- 3. A stream that ends inside a message yields an ERROR, never a message — for every schedule
     (progressive or not, with or without errors) and every limit. -/
-theorem recv_truncated (c0 max : Nat) (m : Bytes) (k : Nat) (sched : List ReadEv)
+theorem recvC_truncated (c0 max : Nat) (m : Bytes) (k : Nat) (sched : List ReadEv)
     (hm : Framed m) (hk : k < m.length) :
-    (recv c0 max { wire := m.take k, sched := sched }).res = .ioErr ∨
-    (recv c0 max { wire := m.take k, sched := sched }).res = .eof ∨
-    (recv c0 max { wire := m.take k, sched := sched }).res = .tooBig := by
-  have hmsg : ∀ bs, (recv c0 max { wire := m.take k, sched := sched }).res ≠ .msg bs := by
+    (recvC c0 max { wire := m.take k, sched := sched }).res = .ioErr ∨
+    (recvC c0 max { wire := m.take k, sched := sched }).res = .eof ∨
+    (recvC c0 max { wire := m.take k, sched := sched }).res = .tooBig := by
+  have hmsg : ∀ bs, (recvC c0 max { wire := m.take k, sched := sched }).res ≠ .msg bs := by
     refine recvLoop_never_msg max m hm _ _ [] 8 c0 ⟨m.drop k, ?_, ?_⟩
     · intro h
       have := congrArg List.length h
       simp only [List.length_drop, List.length_nil] at this
       omega
     · simp
-  have hfuel := recv_never_fuel c0 max { wire := m.take k, sched := sched }
-  cases h : (recv c0 max { wire := m.take k, sched := sched }).res with
+  have hfuel := recvC_never_fuel c0 max { wire := m.take k, sched := sched }
+  cases h : (recvC c0 max { wire := m.take k, sched := sched }).res with
   | msg bs => exact absurd h (hmsg bs)
   | ioErr => exact Or.inl rfl
   | eof => exact Or.inr (Or.inl rfl)
@@ -133,18 +133,18 @@ theorem recv_truncated (c0 max : Nat) (m : Bytes) (k : Nat) (sched : List ReadEv
 /-- 4. An announcement larger than the limit, EVERY schedule (zero-length reads and errors included):
     the call returns an error, has consumed at most the 8 header bytes, and the receive buffer still
     has its initial capacity — the announced amount is never buffered. -/
-theorem recv_too_big_any_schedule (c0 max : Nat) (hc0 : 8 ≤ c0) (hmax : 0 < max) (w : Bytes)
+theorem recvC_too_big_any_schedule (c0 max : Nat) (hc0 : 8 ≤ c0) (hmax : 0 < max) (w : Bytes)
     (sched : List ReadEv) (hbig : max < computeNeededBytes (w.take 8)) :
-    ((recv c0 max { wire := w, sched := sched }).res = .tooBig ∨
-      (recv c0 max { wire := w, sched := sched }).res = .ioErr ∨
-      (recv c0 max { wire := w, sched := sched }).res = .eof) ∧
-    w.length - (recv c0 max { wire := w, sched := sched }).t.wire.length ≤ 8 ∧
-    (recv c0 max { wire := w, sched := sched }).cap = c0 := by
+    ((recvC c0 max { wire := w, sched := sched }).res = .tooBig ∨
+      (recvC c0 max { wire := w, sched := sched }).res = .ioErr ∨
+      (recvC c0 max { wire := w, sched := sched }).res = .eof) ∧
+    w.length - (recvC c0 max { wire := w, sched := sched }).t.wire.length ≤ 8 ∧
+    (recvC c0 max { wire := w, sched := sched }).cap = c0 := by
   have := recvLoop_too_big_any max hmax w hbig c0 hc0 (w.length + sched.length + 2)
     { wire := w, sched := sched } [] rfl (by decide)
-  have hfuel := recv_never_fuel c0 max { wire := w, sched := sched }
+  have hfuel := recvC_never_fuel c0 max { wire := w, sched := sched }
   refine ⟨?_, this.2.1, this.2.2⟩
-  cases h : (recv c0 max { wire := w, sched := sched }).res with
+  cases h : (recvC c0 max { wire := w, sched := sched }).res with
   | msg bs => exact absurd h (this.1 bs)
   | ioErr => exact Or.inr (Or.inl rfl)
   | eof => exact Or.inr (Or.inr rfl)
@@ -152,36 +152,36 @@ theorem recv_too_big_any_schedule (c0 max : Nat) (hc0 : 8 ≤ c0) (hmax : 0 < ma
   | fuel => exact absurd h hfuel
 
 /-- 4a. Progressive schedules: the error is the size rejection or the transport's own error. -/
-theorem recv_too_big (c0 max : Nat) (hc0 : 8 ≤ c0) (hmax : 0 < max) (w : Bytes)
+theorem recvC_too_big (c0 max : Nat) (hc0 : 8 ≤ c0) (hmax : 0 < max) (w : Bytes)
     (sched : List ReadEv) (hp : Progressive sched) (hlen : 8 ≤ w.length)
     (hbig : max < computeNeededBytes (w.take 8)) :
-    (∀ bs, (recv c0 max { wire := w, sched := sched }).res ≠ .msg bs) ∧
-    ((recv c0 max { wire := w, sched := sched }).res = .tooBig ∨
-      (recv c0 max { wire := w, sched := sched }).res = .ioErr) ∧
-    w.length - (recv c0 max { wire := w, sched := sched }).t.wire.length ≤ 8 ∧
-    (recv c0 max { wire := w, sched := sched }).cap = c0 := by
+    (∀ bs, (recvC c0 max { wire := w, sched := sched }).res ≠ .msg bs) ∧
+    ((recvC c0 max { wire := w, sched := sched }).res = .tooBig ∨
+      (recvC c0 max { wire := w, sched := sched }).res = .ioErr) ∧
+    w.length - (recvC c0 max { wire := w, sched := sched }).t.wire.length ≤ 8 ∧
+    (recvC c0 max { wire := w, sched := sched }).cap = c0 := by
   have := recvLoop_too_big max hmax w hlen hbig c0 hc0 (w.length + sched.length + 2) [] w sched rfl
     (by decide) (by simp only [List.length_nil]; omega) hp
   refine ⟨fun bs h => ?_, this.1, this.2.1, this.2.2.1⟩
-  rcases this.1 with h' | h' <;> · unfold recv at h; rw [h'] at h; cases h
+  rcases this.1 with h' | h' <;> · unfold recvC at h; rw [h'] at h; cases h
 
 /-- 4b. With an error-free schedule the result is `.tooBig`; when the limit is at least the header
     size exactly the 8 header bytes have been consumed. (For `max < 8` the header is rejected
     even earlier: `need = 8 > max` after the first read.) -/
-theorem recv_too_big_clean (c0 max : Nat) (hc0 : 8 ≤ c0) (hmax : 0 < max) (w : Bytes)
+theorem recvC_too_big_clean (c0 max : Nat) (hc0 : 8 ≤ c0) (hmax : 0 < max) (w : Bytes)
     (sched : List ReadEv)
     (hp : Progressive sched) (he : ∀ ev ∈ sched, ev.withErr = false) (hlen : 8 ≤ w.length)
     (hbig : max < computeNeededBytes (w.take 8)) :
-    (recv c0 max { wire := w, sched := sched }).res = .tooBig ∧
-    (8 ≤ max → w.length - (recv c0 max { wire := w, sched := sched }).t.wire.length = 8) := by
+    (recvC c0 max { wire := w, sched := sched }).res = .tooBig ∧
+    (8 ≤ max → w.length - (recvC c0 max { wire := w, sched := sched }).t.wire.length = 8) := by
   have := recvLoop_too_big max hmax w hlen hbig c0 hc0 (w.length + sched.length + 2) [] w sched rfl
     (by decide) (by simp only [List.length_nil]; omega) hp
   exact this.2.2.2 he
 
 /-- 5. With a limit configured the capacity requested for the receive buffer never exceeds
     `max(c0, limit)`, whatever the transport delivers. -/
-theorem recv_cap_bound (c0 max : Nat) (hc0 : 8 ≤ c0) (hmax : 0 < max) (t : Transport) :
-    (recv c0 max t).cap ≤ Nat.max c0 max := by
+theorem recvC_cap_bound (c0 max : Nat) (hc0 : 8 ≤ c0) (hmax : 0 < max) (t : Transport) :
+    (recvC c0 max t).cap ≤ Nat.max c0 max := by
   have h1 : max ≤ Nat.max c0 max := Nat.le_max_right _ _
   have h2 : c0 ≤ Nat.max c0 max := Nat.le_max_left _ _
   exact recvLoop_cap_bound max _ hmax h1 _ t [] 8 c0 (by omega) h2
@@ -189,10 +189,10 @@ theorem recv_cap_bound (c0 max : Nat) (hc0 : 8 ≤ c0) (hmax : 0 < max) (t : Tra
 /-- 6. Safety under EVERY schedule (zero-length reads, errors at any point, any chunk sizes) and every
     limit: if the call returns a message it is exactly the first frame and exactly `rest` is left;
     and whatever the outcome, `rest` — the following messages — is still entirely on the wire. -/
-theorem recv_sound (c0 max : Nat) (m rest : Bytes) (sched : List ReadEv) (hm : Framed m) :
-    (∀ bs, (recv c0 max { wire := m ++ rest, sched := sched }).res = .msg bs →
-      bs = m ∧ (recv c0 max { wire := m ++ rest, sched := sched }).t.wire = rest) ∧
-    ∃ pre, (recv c0 max { wire := m ++ rest, sched := sched }).t.wire = pre ++ rest := by
+theorem recvC_sound (c0 max : Nat) (m rest : Bytes) (sched : List ReadEv) (hm : Framed m) :
+    (∀ bs, (recvC c0 max { wire := m ++ rest, sched := sched }).res = .msg bs →
+      bs = m ∧ (recvC c0 max { wire := m ++ rest, sched := sched }).t.wire = rest) ∧
+    ∃ pre, (recvC c0 max { wire := m ++ rest, sched := sched }).t.wire = pre ++ rest := by
   have hne : m ≠ [] := by
     intro h; have := hm.1; rw [h] at this; simp at this
   have := recvLoop_sound max m hm rest ((m ++ rest).length + sched.length + 2)
@@ -203,9 +203,9 @@ theorem recv_sound (c0 max : Nat) (m rest : Bytes) (sched : List ReadEv) (hm : F
 /-- 7. What a zero-length read does (the exclusion of 1/2 made explicit): when the next scheduled read
     delivers no byte although the wire is not empty, the call ends with an error (`.eof` for
     `(0, nil)`, `.ioErr` for `(0, err)`) and nothing has been consumed. -/
-theorem recv_zero_read (c0 max : Nat) (w : Bytes) (e : Bool) (post : List ReadEv) (hw : w ≠ []) :
-    (recv c0 max { wire := w, sched := ⟨0, e⟩ :: post }).res = (if e then .ioErr else .eof) ∧
-    (recv c0 max { wire := w, sched := ⟨0, e⟩ :: post }).t.wire = w := by
+theorem recvC_zero_read (c0 max : Nat) (w : Bytes) (e : Bool) (post : List ReadEv) (hw : w ≠ []) :
+    (recvC c0 max { wire := w, sched := ⟨0, e⟩ :: post }).res = (if e then .ioErr else .eof) ∧
+    (recvC c0 max { wire := w, sched := ⟨0, e⟩ :: post }).t.wire = w := by
   have hne : w.isEmpty = false := by
     cases w with
     | nil => exact absurd rfl hw
@@ -213,9 +213,27 @@ theorem recv_zero_read (c0 max : Nat) (w : Bytes) (e : Bool) (post : List ReadEv
   have hread : Transport.read { wire := w, sched := ⟨0, e⟩ :: post } (8 - ([] : Bytes).length)
       = ([], e, { wire := w, sched := post }) := by
     simp [Transport.read, hne]
-  unfold recv
+  unfold recvC
   rw [recvLoop_step hread]
   cases e <;> simp
+
+/-! ### the instance for today's initial capacity (`recv max = recvC 512 max`), in the form other
+properties cite (C11 `never_partial_response`) -/
+
+theorem recv_exact (max : Nat) (m rest : Bytes) (sched : List ReadEv)
+    (hm : Framed m) (hmax : max = 0 ∨ m.length ≤ max) (hp : Progressive sched)
+    (he : ∀ ev ∈ sched, ev.withErr = false) :
+    ∃ sched', (recv max { wire := m ++ rest, sched := sched }).res = .msg m ∧
+      (recv max { wire := m ++ rest, sched := sched }).t = { wire := rest, sched := sched' } ∧
+      Progressive sched' ∧ (∀ ev ∈ sched', ev.withErr = false) :=
+  recvC_exact 512 max m rest sched hm hmax hp he
+
+theorem recv_truncated (max : Nat) (m : Bytes) (k : Nat) (sched : List ReadEv)
+    (hm : Framed m) (hk : k < m.length) :
+    ∀ bs, (recv max { wire := m.take k, sched := sched }).res ≠ .msg bs := by
+  intro bs h
+  have h' : (recvC 512 max { wire := m.take k, sched := sched }).res = .msg bs := h
+  rcases recvC_truncated 512 max m k sched hm hk with e | e | e <;> · rw [e] at h'; cases h'
 
 /-! ### non-vacuity -/
 
@@ -238,12 +256,12 @@ example : Progressive schedClean ∧ (∀ ev ∈ schedClean, ev.withErr = false)
 example : Progressive schedEof ∧ ErrOnlyAtEnd intFrame.length 0 schedEof := by
   unfold Progressive schedEof; simp [ErrOnlyAtEnd, FrameSched, intFrame]
 
-example : (recv 512 0 { wire := intFrame ++ [1, 2, 3], sched := schedClean }).res = .msg intFrame := by
+example : (recvC 512 0 { wire := intFrame ++ [1, 2, 3], sched := schedClean }).res = .msg intFrame := by
   decide
 
 /-- the last read of the frame is flagged with an error: still a message, the tail is untouched. -/
-example : (recv 512 0 { wire := intFrame ++ [1, 2, 3], sched := schedEof }).res = .msg intFrame ∧
-    (recv 512 0 { wire := intFrame ++ [1, 2, 3], sched := schedEof }).t.wire = [1, 2, 3] := by
+example : (recvC 512 0 { wire := intFrame ++ [1, 2, 3], sched := schedEof }).res = .msg intFrame ∧
+    (recvC 512 0 { wire := intFrame ++ [1, 2, 3], sched := schedEof }).t.wire = [1, 2, 3] := by
   decide
 
 /-- two frames, each completed by a flagged read (header 8 + body 8, twice): `SeqSched` holds and
@@ -261,21 +279,21 @@ example : (recvAll 512 0 2 { wire := intFrame ++ intFrame ++ [9], sched := sched
 
 /-- an error flagged on a read that leaves the frame incomplete is reported (why 1a/1b need their
     hypothesis on flagged reads). -/
-example : (recv 512 0 { wire := intFrame, sched := [⟨8, false⟩, ⟨3, true⟩] }).res = .ioErr := by
+example : (recvC 512 0 { wire := intFrame, sched := [⟨8, false⟩, ⟨3, true⟩] }).res = .ioErr := by
   decide
 
 /-- a truncated frame: the final read on the empty wire returns `(0, io.EOF)`. -/
-example : (recv 512 0 { wire := intFrame.take 12, sched := [⟨5, false⟩] }).res = .ioErr := by decide
+example : (recvC 512 0 { wire := intFrame.take 12, sched := [⟨5, false⟩] }).res = .ioErr := by decide
 
 /-- a zero-length read in the middle of a frame: `.eof`, the 5 bytes already read are lost to the
     stream but nothing of the following data was touched (6). -/
-example : (recv 512 0 { wire := intFrame ++ [7], sched := [⟨5, false⟩, ⟨0, false⟩] }).res = .eof ∧
-    (recv 512 0 { wire := intFrame ++ [7], sched := [⟨5, false⟩, ⟨0, false⟩] }).t.wire
+example : (recvC 512 0 { wire := intFrame ++ [7], sched := [⟨5, false⟩, ⟨0, false⟩] }).res = .eof ∧
+    (recvC 512 0 { wire := intFrame ++ [7], sched := [⟨5, false⟩, ⟨0, false⟩] }).t.wire
       = intFrame.drop 5 ++ [7] := by decide
 
 /-- an oversized announcement under a limit of 8 bytes. -/
-example : (recv 512 8 { wire := intFrame, sched := [⟨5, false⟩] }).res = .tooBig ∧
-    (recv 512 8 { wire := intFrame, sched := [⟨5, false⟩] }).t.wire.length = 8 := by decide
+example : (recvC 512 8 { wire := intFrame, sched := [⟨5, false⟩] }).res = .tooBig ∧
+    (recvC 512 8 { wire := intFrame, sched := [⟨5, false⟩] }).t.wire.length = 8 := by decide
 
 /-- a header announcing 0xFFFFFFFF bytes (padded: 2^32) under the server's 1 MiB limit: rejected after the
     header, buffer capacity unchanged. -/
@@ -283,11 +301,11 @@ def hugeHdr : Bytes := [0x42, 0x00, 0x01, 0x08, 0xFF, 0xFF, 0xFF, 0xFF]
 
 example : 1048576 < computeNeededBytes (hugeHdr.take 8) := by decide
 
-example : (recv 512 1048576 { wire := hugeHdr ++ [1, 2, 3], sched := [⟨3, false⟩] }).res = .tooBig ∧
-    (recv 512 1048576 { wire := hugeHdr ++ [1, 2, 3], sched := [⟨3, false⟩] }).t.wire = [1, 2, 3] ∧
-    (recv 512 1048576 { wire := hugeHdr ++ [1, 2, 3], sched := [⟨3, false⟩] }).cap = 512 := by decide
+example : (recvC 512 1048576 { wire := hugeHdr ++ [1, 2, 3], sched := [⟨3, false⟩] }).res = .tooBig ∧
+    (recvC 512 1048576 { wire := hugeHdr ++ [1, 2, 3], sched := [⟨3, false⟩] }).t.wire = [1, 2, 3] ∧
+    (recvC 512 1048576 { wire := hugeHdr ++ [1, 2, 3], sched := [⟨3, false⟩] }).cap = 512 := by decide
 
 /-- growth: a 16-byte frame with an initial capacity of 8 requests capacity 16. -/
-example : (recv 8 0 { wire := intFrame, sched := [] }).cap = 16 := by decide
+example : (recvC 8 0 { wire := intFrame, sched := [] }).cap = 16 := by decide
 
 end Kmip.C07
